@@ -177,9 +177,14 @@ pub fn check_set(
     let orders = permutations(defs.len());
     let mut evals = 0;
     let mut ambiguous = 0;
+    // every registration order, as built and as a clone of it (a `runner::Basic` or a
+    // `Collection` may be cloned by the user before it is run)
     let collections: Vec<Collection<TW>> = orders
         .iter()
-        .map(|o| build(&o.iter().map(|i| defs[*i]).collect::<Vec<_>>(), fns, res))
+        .flat_map(|o| {
+            let c = build(&o.iter().map(|i| defs[*i]).collect::<Vec<_>>(), fns, res);
+            [c.clone(), c]
+        })
         .collect();
     for ty in types {
         for text in TEXTS {
